@@ -111,3 +111,47 @@ def call_has_keyword(file, method, keyword, expected_src, min_calls=1):
             return rec
     rec["status"] = "proved"
     return rec
+
+
+def call_passes_param(qualname, method, arg_index, param, min_calls=1):
+    """Precondition-at-call-site obligation: inside the function `qualname`, every call `<obj>.<method>(...)`
+    passes the function's own parameter `param` — the whole object, not a slice or copy — as positional
+    argument `arg_index`, and `param` is never re-bound in the function."""
+    rec = {"name": f"{qualname.split('::')[-1]}: every .{method}() call passes the whole parameter `{param}` as argument {arg_index}",
+           "status": "undecided", "backend": "ast-call-site", "ms": 0.0}
+    try:
+        fs = source.get_function(qualname)
+    except Exception as e:
+        rec["detail"] = f"contract drift: {e}"
+        return rec
+    fn = fs.node
+    if param not in [a.arg for a in fn.args.args]:
+        rec["detail"] = f"contract drift: no parameter {param}"
+        return rec
+    for n in ast.walk(fn):
+        targets = []
+        if isinstance(n, ast.Assign):
+            targets = n.targets
+        elif isinstance(n, (ast.AugAssign, ast.AnnAssign)):
+            targets = [n.target]
+        elif isinstance(n, (ast.For, ast.comprehension)):
+            targets = [n.target]
+        for t in targets:
+            for sub in ast.walk(t):
+                if isinstance(sub, ast.Name) and sub.id == param:
+                    rec["status"] = "violated"
+                    rec["detail"] = f"line {getattr(n, 'lineno', '?')}: parameter {param} is re-bound"
+                    return rec
+    calls = [n for n in ast.walk(fn) if isinstance(n, ast.Call) and isinstance(n.func, ast.Attribute) and n.func.attr == method]
+    rec["vc"] = f"{len(calls)} call site(s) of .{method}() in {qualname}"
+    if len(calls) < min_calls:
+        rec["detail"] = f"only {len(calls)} call sites found, expected >= {min_calls} (contract drift)"
+        return rec
+    for c in calls:
+        if len(c.args) <= arg_index or not (isinstance(c.args[arg_index], ast.Name) and c.args[arg_index].id == param):
+            got = ast.unparse(c.args[arg_index]) if len(c.args) > arg_index else "<missing>"
+            rec["status"] = "violated"
+            rec["detail"] = f"line {c.lineno}: .{method}(...) receives `{got}` where the whole `{param}` is required"
+            return rec
+    rec["status"] = "proved"
+    return rec
